@@ -7,6 +7,7 @@ import dt
 import sd
 import hazard
 import depcheck
+import shifts
 import ras
 import engine
 import props.c15 as c15
@@ -23,7 +24,7 @@ META = {
                    'dash_path run only under an is_finite test of the period; R07.4 (=R05.6) no buffer is sized from an inverted rectangle; '
                    'R07.5 (=R04.4) width/period guards reject NaN; R07.6 (=R03.6) alpha conversions saturate; R07.7 (=R03.7) no extent is used '
                    'as a position.',
-    'decides': ['R07.1 hazard census against the audited table with guard re-verification', 'R07.2 loop progress', 'R07.3 float loops need a finite period',
+    'decides': ['R07.9 every shift by a variable amount stays inside [0, bits): interval of the amount from constants, comparisons on every path from its definition, callee contracts and all stores to the field it is read from', 'R07.1 hazard census against the audited table with guard re-verification', 'R07.2 loop progress', 'R07.3 float loops need a finite period',
                 'R07.4 degenerate rectangles', 'R07.5 NaN polarity of guards', 'R07.6 alpha saturation', 'R07.7 extent used as position',
                 'R07.8 (dependency sw-composite, read as MIR in the resolved version) no signed value is converted to unsigned and fed to checked arithmetic while the same function tests the same variables for < 0 (belief contradiction); the four non-separable blend modes are known findings D30'],
     'does_not_decide': ['arithmetic-overflow assertions (fixed-point stepping, *i += max, index products)', 'value-range entries of the table (listed in the evidence)',
@@ -156,4 +157,4 @@ def r07_3(ctx):
 
 
 def run(ctx):
-    engine.run_rules(ctx, [hazard.r07_1, r07_2, r07_3, dt.r05_6, dt.r05_7, dt.r02_1, dt.r02_2, dt.r02_3, dt.r02_6, ras.r01_5, sd.r04_4, dt.r03_6, dt.r03_7, ras.r10_2, sd.r09_4, ras.r01_9, dt.r03_2, dt.r05_3, ras.r10_5, ras.r01_6, dt.r06_3, depcheck.r07_4, sd.r09_10, c15.r15_rows, c15.r15_5])
+    engine.run_rules(ctx, [hazard.r07_1, r07_2, r07_3, dt.r05_6, dt.r05_7, dt.r02_1, dt.r02_2, dt.r02_3, dt.r02_6, ras.r01_5, sd.r04_4, dt.r03_6, dt.r03_7, ras.r10_2, sd.r09_4, ras.r01_9, dt.r03_2, dt.r05_3, ras.r10_5, ras.r01_6, dt.r06_3, depcheck.r07_4, sd.r09_10, c15.r15_rows, c15.r15_5, shifts.r07_9])
